@@ -12,7 +12,15 @@ A case (JSON-able):
                gets top-level folders that are symbolic links / copies and the components' direct references into them
                (e.g. shared/lookup.dat:copy) must still be read as references to FOLDERS after the reload
                (Manifest.fromDirectory on the instance directory)
-  kind 'loop': c05 (a case of harness/c05.py: DoWhile package), k further iterations before the reload
+  kind 'loop': c05 (a case of harness/c05.py: DoWhile package), k further iterations before the reload,
+               optional rep {'outside': n, 'inside': m}: REPLICATED components are added to the package - outside the loop
+               (stage 0: xrep replicates n times, xagg aggregates it) and / or inside the DoWhile document (zrep replicates m times,
+               zagg aggregates it) - so that the description stored after an iteration is the one of an experiment whose
+               replicated flavour differs from the primitive one
+  both kinds:  post = number of explicit FlowIRExperimentConfiguration.store_unreplicated_flowir_to_disk() calls on the BUILT
+               experiment after creation / the iterations and before the reload (what elaunch does after it extracted the
+               interface); restore = every RELOADED experiment stores explicitly as well, after it was built, before the next
+               reload reads the directory
 """
 import copy
 import logging
@@ -87,6 +95,33 @@ def snapshot(exp, folders=()):
     return snap
 
 
+def loop_documents(case):
+    """the two documents of a 'loop' case: the C05 package, plus the replicated components that case['rep'] asks for"""
+    import c05_impl
+    main, dw = c05_impl.documents(case['c05'])
+    rep = case.get('rep') or {}
+    if rep.get('outside'):
+        main['components'].append({'stage': 0, 'name': 'xrep', 'command': {'executable': 'echo', 'arguments': 'x-%(replica)s'},
+                                   'workflowAttributes': {'replicate': rep['outside']}})
+        main['components'].append({'stage': 0, 'name': 'xagg', 'command': {'executable': 'echo', 'arguments': 'xrep:ref'},
+                                   'references': ['xrep:ref'], 'workflowAttributes': {'aggregate': True}})
+    if rep.get('inside'):
+        first = min([c.get('stage', 0) for c in dw['components']] or [0])
+        zrep = {'name': 'zrep', 'command': {'executable': 'echo', 'arguments': 'z-%(replica)s'},
+                'workflowAttributes': {'replicate': rep['inside']}}
+        zagg = {'name': 'zagg', 'command': {'executable': 'echo', 'arguments': 'zrep:ref'},
+                'references': ['zrep:ref'], 'workflowAttributes': {'aggregate': True}}
+        if first:
+            zrep['stage'] = first
+            zagg['stage'] = first
+        dw['components'] += [zrep, zagg]
+    return main, dw
+
+
+def _load_stored(ipath):
+    return _sorted_components(yaml.safe_load(open(ipath, 'rb').read()))
+
+
 def drive(case):
     logging.disable(logging.CRITICAL)
     import experiment.model.storage
@@ -129,8 +164,7 @@ def drive(case):
                         F.yaml_dump(copy.deepcopy(uf), f)
                     var_files.append(p)
         else:
-            import c05_impl
-            main, dw = c05_impl.documents(case['c05'])
+            main, dw = loop_documents(case)
             with open(os.path.join(pkg, 'conf', 'flowir_package.yaml'), 'w') as f:
                 yaml.safe_dump(main, f)
             with open(os.path.join(pkg, 'conf', 'dowhile.yaml'), 'w') as f:
@@ -147,6 +181,10 @@ def drive(case):
             return {'error': 'create:' + type(e).__name__, 'msg': str(e)[:1500]}
         inst = exp.instanceDirectory.location
         ipath = os.path.join(inst, 'conf', 'flowir_instance.yaml')
+        if not os.path.exists(ipath):
+            return {'error': 'create:no-instance-file'}
+        # the description written while the configuration was initialised (before the experiment was built)
+        obs['stored_at_creation'] = _load_stored(ipath)
         if case['kind'] == 'loop':
             c5 = case['c05']
             g = exp.experimentGraph
@@ -158,8 +196,14 @@ def drive(case):
                     g.instantiate_dowhile_next_iteration(node['document'], nxt, True)
             except Exception as e:
                 return {'error': 'iterate:' + type(e).__name__, 'msg': str(e)[:1500]}
-        if not os.path.exists(ipath):
-            return {'error': 'create:no-instance-file'}
+        # the description as the experiment left it by itself (creation / last iteration) ...
+        obs['stored_before_post'] = _load_stored(ipath)
+        # ... and explicit stores by the BUILT experiment (elaunch: after the interface was extracted)
+        try:
+            for _ in range(case.get('post') or 0):
+                exp.configuration.store_unreplicated_flowir_to_disk()
+        except Exception as e:
+            return {'error': 'store:' + type(e).__name__, 'msg': str(e)[:1500]}
         names = [n for n, _m in folders]
         obs['live'] = snapshot(exp, names)
         obs['folder_is_link'] = dict((n, os.path.islink(os.path.join(inst, n))) for n in names)
@@ -179,6 +223,13 @@ def drive(case):
                 reloads.append({'error': 'reload:' + type(e).__name__, 'msg': str(e)[:1500]})
                 break
             reloads.append(snapshot(exp2, names))
+            if case.get('restore'):
+                # the reloaded experiment, once built, stores its description on request as well
+                try:
+                    exp2.configuration.store_unreplicated_flowir_to_disk()
+                except Exception as e:
+                    reloads[-1] = {'error': 'store-after-reload:' + type(e).__name__, 'msg': str(e)[:1500]}
+                    break
             b = open(ipath, 'rb').read()
             same_bytes.append(b == bytes0)
             again.append(_sorted_components(yaml.safe_load(b)))
